@@ -411,6 +411,20 @@ func roundtripCase(c *Ctx) {
 		if !bytes.Equal(body, want) {
 			c.Violate("c10-rerender-content", fmt.Sprintf("leaf %d (%s): content changed (%d -> %d bytes)", i, cte, len(want), len(body)), spc)
 		}
+		// files: kind and name as an independent reader sees them in the SECOND rendering
+		if exp[i].kind != "part" {
+			cd, _ := l.Get("Content-Disposition")
+			disp, params, perr := parseParams(cd)
+			wantDisp := "inline"
+			if exp[i].kind == "attachment" {
+				wantDisp = "attachment"
+			}
+			if perr != nil || disp != wantDisp {
+				c.Violate("c10-rerender-files", fmt.Sprintf("leaf %d: disposition %q (%v) in the second rendering, expected %s", i, cd, perr, wantDisp), spc)
+			} else if fn, derr := decode2047(params["filename"]); derr != nil || fn != exp[i].name {
+				c.Violate("c10-rerender-files", fmt.Sprintf("leaf %d: file name %q (%v) in the second rendering, %q was set", i, fn, derr, exp[i].name), spc)
+			}
+		}
 	}
 }
 
